@@ -56,8 +56,12 @@ package pkgload
 //@ func PackageLoader.getPkg(g; pkgName)
 //@   assigns nothing
 
+// C15: the package that exists at the output location is reported as loaded, whether or not it type-checks (its NAME
+// decides the package clause; it usually does not compile before the output is regenerated)
 //@ func PackageLoader.GetUncheckedPkg(g; pkgName)
+//@   props C15
 //@   pure
+//@   ensures result == g.lookup[pkgName]
 
 // C06/C14: for a pattern, every matching function is parsed with the per-use options and with the local
 // settings of THAT function (looked up under the name the object was looked up with)
@@ -65,6 +69,6 @@ package pkgload
 //@   props C06 C14
 //@   errdrop method.Parse#1 documented behaviour of patterns: functions that match the name pattern but are no conversion functions are skipped (an empty result is an error)
 //@   assigns map(g.locals)
-//@   at@C06 call g.localConfig#1 assert arg0 == pkg && obj == scope.Lookup(arg1)
+//@   at@C06,C14 call g.localConfig#1 assert arg0 == pkg && obj == scope.Lookup(arg1)
 //@   at@C14 call method.Parse#1 assert arg1 == opts
 //@   at@C14 call g.getOneParsed#1 assert arg2 == opts && arg1 == name
